@@ -172,6 +172,7 @@ package smtp
 //@   ensures @C02 stream-only-forward: (c.text.R.pos >= old(c.text.R.pos) || c.closed) && c.text == old(c.text) && c.text.R == old(c.text.R)
 //@   before dataErrorToStatus: @C04,C17 the-verdict-is-the-backends-result-for-this-message: $0 == resultof("Session.Data", 1, 1)
 //@   before (*Conn).writeResponse: @C04 final-reply-positive-exactly-when-the-backend-accepted: called("Session.Data") ==> (c.cbData != old(c.cbData) ==> ($1 == 250 <==> resultof("Session.Data", 1, 1) == nil))
+//@   before (*Conn).writeResponse: @C17 any-other-error-from-data-is-reported-with-its-text: called("Session.Data") ==> (c.cbData != old(c.cbData) && resultof("Session.Data", 1, 1) != nil && !istype(resultof("Session.Data", 1, 1), "*SMTPError") ==> len($3) == 1 && $3[0] == "Error: transaction failed: " + errText(resultof("Session.Data", 1, 1)))
 //@   before (*Conn).writeResponse: @C17 any-other-error-from-data-is-reported-554-5-0-0: called("Session.Data") ==> (c.cbData != old(c.cbData) && resultof("Session.Data", 1, 1) != nil && !istype(resultof("Session.Data", 1, 1), "*SMTPError") ==> $1 == 554 && $2[0] == 5 && $2[1] == 0 && $2[2] == 0)
 //@   before (*Conn).writeResponse: @C04,C17 a-backend-smtp-error-keeps-its-code: called("Session.Data") ==> (c.cbData != old(c.cbData) && istype(resultof("Session.Data", 1, 1), "*SMTPError") ==> $1 == asref(resultof("Session.Data", 1, 1), "*SMTPError").Code)
 
